@@ -270,6 +270,7 @@ static z3::check_result query(const z3::expr* q, const std::set<Var>& qvars, uns
   z3::check_result r;
   try { r = s.check(); } catch (z3::exception& ex) { r = z3::unknown; }
   double dt = now_s() - t0;
+  if (dt > 1.0 && getenv("SX_TRACE")) { std::string qs = q ? q->to_string() : std::string("(pc only)"); std::cerr << "[slow query " << dt << " s, " << (r == z3::sat ? "sat" : r == z3::unsat ? "unsat" : "unknown") << ", vars=" << vs.size() << "] " << qs.substr(0, 300) << "\n"; }
   if (e.st) {
     e.st->solver_s += dt;
     if (r == z3::sat) e.st->q_sat++; else if (r == z3::unsat) e.st->q_unsat++; else e.st->q_unknown++;
@@ -487,6 +488,25 @@ static bool const_sign(const Poly& p, int& sign) {
   if (r == z3::unsat) { sign = 0; return true; }
   if (r == z3::sat) { sign = v > 0 ? 1 : v < 0 ? -1 : 0; if (sign == 0) return false; return true; }
   return false;
+}
+
+
+// syntactic sign: +1 if every monomial is a positive multiple of a product of atoms that are non-negative by
+// construction (sqrt, abs) or of squares; -1 if every monomial is a negative such multiple; 0 unknown
+static int sign_syntactic(const Poly& p) {
+  if (p.empty()) return 0;
+  int sg = 0;
+  for (auto& kv : p) {
+    const Mono& m = kv.first;
+    for (size_t i = 0; i < m.size(); i++) {
+      VKind k = E().vars[m[i]].kind;
+      if (i + 1 < m.size() && m[i + 1] == m[i]) { i++; continue; }
+      if (!(k == V_SQRT || k == V_ABS)) return 0;
+    }
+    int s1 = kv.second > 0 ? 1 : -1;
+    if (sg == 0) sg = s1; else if (sg != s1) return 0;
+  }
+  return sg;
 }
 
 enum Rel { R_LT, R_LE, R_EQ };
@@ -808,6 +828,7 @@ static bool decide(const Poly& p, Rel rel) {
   mpq_class c;
   if (p_is_rational(p, &c)) return rel == R_LT ? c < 0 : rel == R_LE ? c <= 0 : c == 0;
   if (p_is_const(p)) { int sg; if (const_sign(p, sg)) return rel == R_LT ? sg < 0 : rel == R_LE ? sg <= 0 : sg == 0; }
+  { int ss = sign_syntactic(p); if (ss > 0 && rel == R_LT) return false; if (ss < 0 && rel == R_LE) return true; }
   if (!e.in_path) throw Abort{Abort::Unsupported, "symbolic comparison outside a path"};
   if (++e.branches_this_path > e.pol.max_branches) throw Abort{Abort::Budget, "branch budget of the path exceeded"};
   if (e.st) e.st->branch_points++;
@@ -1031,6 +1052,7 @@ std::istream& operator>>(std::istream& i, SymReal& a) {
 namespace sx {
 
 void magic_reset() { E().magic.clear(); E().magic_of.clear(); }
+Real uf(const std::string& name, std::initializer_list<Real> args) { std::vector<Poly> a; for (const Real& r : args) a.push_back(P(r)); return uf_sym(name, a); }
 bool symbolic_mode() { return true; }
 Policy& policy() { return E().pol; }
 
@@ -1092,6 +1114,7 @@ static void check_rel(const Poly& p, int mode, const std::string& label) {
       return;
     }
   }
+  if (mode == 1 && sign_syntactic(p) > 0) { if (e.st) e.st->nf_trivial++; return; }
   if (e.st) e.st->nontrivial_sites.insert(label);
   e.path_symbolic = true;
   z3::expr z = z_of(p);
